@@ -11,6 +11,7 @@
 #include "quill/Backend.h"
 #include "quill/Frontend.h"
 #include "quill/Logger.h"
+#include "quill/filters/Filter.h"
 #include "quill/sinks/Sink.h"
 
 #include <algorithm>
@@ -130,8 +131,95 @@ void harness_init(Params const& p)
   g_prop = param_str(p, "prop", "C03");
 }
 
+// ---- C16 under real concurrency: filters attached to a sink WHILE other threads attach filters to the same sink and the
+// backend evaluates statements. Every worker repeats: attach a filter that rejects exactly its next statement (add_filter
+// has returned before the log call starts), log that statement; every fourth statement gets no filter of its own and
+// must arrive. Oracle at quiescence: a statement is on the sink iff no attached filter rejects it.
+class TagFilter : public quill::Filter
+{
+public:
+  TagFilter(std::string name, std::string tag) : quill::Filter(std::move(name)), _tag(std::move(tag)) {}
+  bool filter(quill::MacroMetadata const*, uint64_t, std::string_view, std::string_view, std::string_view, quill::LogLevel,
+              std::string_view msg, std::string_view) noexcept override
+  {
+    return !(msg.size() >= _tag.size() && msg.compare(0, _tag.size(), _tag) == 0);
+  }
+  std::string _tag;
+};
+
+void run_filter_race(Choices& c, Report& r)
+{
+  quill::BackendOptions bo;
+  bo.sleep_duration = std::chrono::nanoseconds{c.pick(2) ? 0 : 100};
+  bo.transit_event_buffer_initial_capacity = 1u << c.pick(5);
+  bo.check_backend_singleton_instance = false;
+  unsigned const nthreads = 2 + c.pick(3);
+  unsigned const rounds = 100 + c.pick(300);
+  unsigned const pre_filters = c.pick(400); // more attached filters = longer critical sections inside add_filter
+  auto sink_sp = RFrontend::create_or_get_sink<RecSink>("rec16");
+  RecSink* sink = static_cast<RecSink*>(sink_sp.get());
+  for (unsigned k = 0; k < pre_filters; ++k) sink->add_filter(std::make_unique<TagFilter>("pre" + std::to_string(k), "never:" + std::to_string(k) + ":"));
+  RLogger* lg = RFrontend::create_or_get_logger("rt16", sink_sp,
+                                                quill::PatternFormatterOptions{"%(message)", "%H:%M:%S.%Qns", quill::Timezone::GmtTime, false});
+  quill::Backend::start(bo);
+  std::vector<std::thread> ths;
+  std::atomic<unsigned> go{0};
+  for (unsigned t = 0; t < nthreads; ++t)
+  {
+    ths.emplace_back(
+      [&, t]()
+      {
+        int const w = static_cast<int>(t) + 1;
+        go.fetch_add(1);
+        while (go.load() < nthreads) {}
+        for (uint32_t seq = 0; seq < rounds; ++seq)
+        {
+          bool const filtered = (seq % 4u) != 3u;
+          if (filtered)
+            sink->add_filter(std::make_unique<TagFilter>("f" + std::to_string(w) + "_" + std::to_string(seq),
+                                                         std::to_string(w) + ":" + std::to_string(seq) + ":"));
+          std::string pad = make_pad(w, seq, 5);
+          lg->template log_statement<false, false>(quill::LogLevel::None, &kMd, static_cast<uint16_t>(w), seq, pad);
+        }
+      });
+  }
+  for (auto& t : ths) t.join();
+  lg->flush_log(100);
+  quill::Backend::stop();
+  r.line("C16 filter race: threads=" + std::to_string(nthreads) + " rounds=" + std::to_string(rounds) + " pre_filters=" + std::to_string(pre_filters) +
+         " sleep_ns=" + std::to_string(bo.sleep_duration.count()));
+  r.label("filters_attached_concurrently");
+  r.nontrivial = true;
+  std::map<std::pair<int, uint32_t>, int> seen;
+  for (auto const& e : sink->entries)
+  {
+    if (!e.ok) { r.fail("sink received a corrupted / unparsable statement"); return; }
+    ++seen[{e.w, e.seq}];
+  }
+  for (unsigned t = 0; t < nthreads; ++t)
+  {
+    int const w = static_cast<int>(t) + 1;
+    for (uint32_t seq = 0; seq < rounds; ++seq)
+    {
+      bool const filtered = (seq % 4u) != 3u;
+      int n = seen.count({w, seq}) ? seen[{w, seq}] : 0;
+      if (filtered && n != 0)
+      {
+        r.fail("statement " + std::to_string(w) + ":" + std::to_string(seq) + " reached the sink although a filter that rejects it was attached to the sink (add_filter had returned) before it was logged");
+        return;
+      }
+      if (!filtered && n != 1)
+      {
+        r.fail("statement " + std::to_string(w) + ":" + std::to_string(seq) + " which no filter rejects was written " + std::to_string(n) + " times");
+        return;
+      }
+    }
+  }
+}
+
 void run_case(Choices& c, Report& r)
 {
+  if (g_prop == "C16") { run_filter_race(c, r); return; }
   // ---- configuration ----
   quill::BackendOptions bo;
   bo.sleep_duration = std::chrono::nanoseconds{c.pick(3) == 0 ? 0 : (c.pick(2) ? 100 : 2000)};
